@@ -27,6 +27,8 @@ long   nondet_long (void);
 V_limb nondet_ulong (void);
 _Bool  nondet_bool (void);
 
+#define V_GHOSTS_OK   (0 <= gk && gk <= V_NMAX && 0 <= gj && gj <= V_NMAX && 0 <= gh && gh <= V_NMAX)
+
 /* overlap predicates as the manual states them */
 #define V_SAME_OR_SEPARATE(a,b,n)  ((a) == (b) || !__CPROVER_same_object (a, b) || (a) + (n) <= (b) || (b) + (n) <= (a))
 #define V_SEPARATE(a,an,b,bn)      (!__CPROVER_same_object (a, b) || (a) + (an) <= (b) || (b) + (bn) <= (a))
